@@ -1710,8 +1710,372 @@ fn secoff(t: &[&str]) -> String {
     format!("r {} p {} s {}", rr, pr, rel.sites())
 }
 
+
+// ---------------------------------------------------------------- c18.parsers
+// The real parsers driven through RelocateReader<EndianSlice, MapRel> on the raw bytes and through a plain
+// EndianSlice on the applied bytes; output in the flat form of coq/Model/RelocPar.v.
+
+fn join(v: &[String]) -> String {
+    if v.is_empty() {
+        "-".to_string()
+    } else {
+        v.join(",")
+    }
+}
+
+fn flat_attr<R: Reader<Offset = usize>>(v: &gimli::AttributeValue<R>) -> Vec<String> {
+    use gimli::AttributeValue as V;
+    let (t, p): (u32, String) = match v {
+        V::Addr(a) => (1, a.to_string()),
+        V::Block(b) => (2, b.len().to_string()),
+        V::Data1(n) => (3, n.to_string()),
+        V::Data2(n) => (4, n.to_string()),
+        V::Data4(n) => (5, n.to_string()),
+        V::Data8(n) => (6, n.to_string()),
+        V::Data16(n) => (7, n.to_string()),
+        V::Sdata(z) => (8, (*z as u64).to_string()),
+        V::Udata(n) => (9, n.to_string()),
+        V::Exprloc(e) => (10, e.0.len().to_string()),
+        V::Flag(f) => (11, (*f as u8).to_string()),
+        V::SecOffset(o) => (12, o.to_string()),
+        V::UnitRef(o) => (13, o.0.to_string()),
+        V::DebugInfoRef(o) => (14, o.0.to_string()),
+        V::DebugInfoRefSup(o) => (15, o.0.to_string()),
+        V::DebugTypesRef(s) => (16, s.0.to_string()),
+        V::String(s) => (17, s.len().to_string()),
+        V::DebugStrRef(o) => (18, o.0.to_string()),
+        V::DebugStrRefSup(o) => (19, o.0.to_string()),
+        V::DebugLineStrRef(o) => (20, o.0.to_string()),
+        V::DebugStrOffsetsIndex(i) => (21, i.0.to_string()),
+        V::DebugAddrIndex(i) => (22, i.0.to_string()),
+        V::DebugLocListsIndex(i) => (23, i.0.to_string()),
+        V::DebugRngListsIndex(i) => (24, i.0.to_string()),
+        _ => (0, "0".to_string()),
+    };
+    vec![t.to_string(), p]
+}
+
+fn p_line<R: Reader<Offset = usize>>(r: R, asz0: u8, big: bool) -> String {
+    let dl = gimli::DebugLine::from(r);
+    let prog = match dl.program(gimli::DebugLineOffset(0), asz0, None, None) {
+        Ok(p) => p,
+        Err(e) => return err(&e),
+    };
+    let h = prog.header();
+    let mut out: Vec<String> = Vec::new();
+    let mut n = |x: u64| out.push(x.to_string());
+    n(h.unit_length() as u64);
+    n(h.format().word_size() as u64);
+    n(h.version() as u64);
+    n(h.address_size() as u64);
+    n(h.header_length() as u64);
+    n(h.minimum_instruction_length() as u64);
+    n(h.maximum_operations_per_instruction() as u64);
+    n(h.default_is_stmt() as u64);
+    n(h.line_base() as u8 as u64);
+    n(h.line_range() as u64);
+    n(h.opcode_base() as u64);
+    n(111);
+    for d in h.include_directories() {
+        out.extend(flat_attr(d));
+    }
+    out.push("222".into());
+    for f in h.file_names() {
+        out.extend(flat_attr(&f.path_name()));
+        out.push(f.directory_index().to_string());
+        out.push(f.timestamp().to_string());
+        out.push(f.size().to_string());
+        let m = *f.md5();
+        out.push((if big { u128::from_be_bytes(m) } else { u128::from_le_bytes(m) }).to_string());
+        match f.source() {
+            Some(s) => out.extend(flat_attr(&s)),
+            None => {
+                out.push("0".into());
+                out.push("0".into());
+            }
+        }
+    }
+    out.push("333".into());
+    let mut it = h.instructions();
+    loop {
+        use gimli::LineInstruction as I;
+        match it.next_instruction(h) {
+            Ok(None) => break,
+            Err(e) => return err(&e),
+            Ok(Some(i)) => {
+                let v: Vec<u64> = match i {
+                    I::Special(o) => vec![o as u64],
+                    I::Copy => vec![1],
+                    I::AdvancePc(a) => vec![2, a],
+                    I::AdvanceLine(a) => vec![3, a as u64],
+                    I::SetFile(a) => vec![4, a],
+                    I::SetColumn(a) => vec![5, a],
+                    I::NegateStatement => vec![6],
+                    I::SetBasicBlock => vec![7],
+                    I::ConstAddPc => vec![8],
+                    I::FixedAddPc(a) => vec![9, a as u64],
+                    I::SetPrologueEnd => vec![10],
+                    I::SetEpilogueBegin => vec![11],
+                    I::SetIsa(a) => vec![12, a],
+                    I::UnknownStandard0(o) => vec![o.0 as u64],
+                    I::UnknownStandard1(o, a) => vec![o.0 as u64, a],
+                    I::UnknownStandardN(o, a) => vec![o.0 as u64, a.len() as u64],
+                    I::EndSequence => vec![0, 1],
+                    I::SetAddress(a) => vec![0, 2, a],
+                    I::DefineFile(f) => {
+                        let l = match f.path_name() {
+                            gimli::AttributeValue::String(s) => s.len() as u64,
+                            _ => 0,
+                        };
+                        vec![0, 3, l, f.directory_index(), f.timestamp(), f.size()]
+                    }
+                    I::SetDiscriminator(d) => vec![0, 4, d],
+                    I::UnknownExtended(o, a) => vec![0, o.0 as u64, a.len() as u64],
+                };
+                out.extend(v.iter().map(|x| x.to_string()));
+            }
+        }
+    }
+    format!("ok {}", join(&out))
+}
+
+fn p_attr<R: Reader<Offset = usize>>(info: R, abbrev: R) -> String {
+    let di = gimli::DebugInfo::from(info);
+    let da = gimli::DebugAbbrev::from(abbrev);
+    let h = match di.units().next() {
+        Ok(Some(h)) => h,
+        Ok(None) => return "none".into(),
+        Err(e) => return err(&e),
+    };
+    let ab = match h.abbreviations(&da) {
+        Ok(a) => a,
+        Err(e) => return err(&e),
+    };
+    let mut cur = h.entries(&ab);
+    match cur.next_dfs() {
+        Ok(Some(entry)) => match entry.attrs().first() {
+            Some(a) => format!("ok {}", join(&flat_attr(&a.raw_value()))),
+            None => "noattr".into(),
+        },
+        Ok(None) => "nodie".into(),
+        Err(e) => err(&e),
+    }
+}
+
+fn p_rle<R: Reader<Offset = usize>>(r: R, asz: u8) -> String {
+    let mut empty = r.clone();
+    empty.empty();
+    let rl = gimli::RangeLists::new(gimli::DebugRanges::from(empty), gimli::DebugRngLists::from(r));
+    let enc = gimli::Encoding { format: Format::Dwarf32, version: 5, address_size: asz };
+    let mut it = match rl.raw_ranges(gimli::RangeListsOffset(0), enc) {
+        Ok(it) => it,
+        Err(e) => return err(&e),
+    };
+    let mut out: Vec<String> = Vec::new();
+    loop {
+        use gimli::RawRngListEntry as E;
+        let v: Vec<u64> = match it.next() {
+            Ok(None) => break,
+            Err(e) => return err(&e),
+            Ok(Some(E::BaseAddressx { addr })) => vec![1, addr.0 as u64],
+            Ok(Some(E::StartxEndx { begin, end })) => vec![2, begin.0 as u64, end.0 as u64],
+            Ok(Some(E::StartxLength { begin, length })) => vec![3, begin.0 as u64, length],
+            Ok(Some(E::OffsetPair { begin, end })) => vec![4, begin, end],
+            Ok(Some(E::BaseAddress { addr })) => vec![5, addr],
+            Ok(Some(E::StartEnd { begin, end })) => vec![6, begin, end],
+            Ok(Some(E::StartLength { begin, length })) => vec![7, begin, length],
+            Ok(Some(E::AddressOrOffsetPair { begin, end })) => vec![99, begin, end],
+        };
+        out.extend(v.iter().map(|x| x.to_string()));
+    }
+    format!("ok {}", join(&out))
+}
+
+fn p_loc<R: Reader<Offset = usize>>(r: R, kind: &str, ver: u16, asz: u8) -> String {
+    let mut empty = r.clone();
+    empty.empty();
+    let enc = gimli::Encoding { format: Format::Dwarf32, version: ver, address_size: asz };
+    let it = if kind == "locbare" {
+        gimli::LocationLists::new(gimli::DebugLoc::from(r), gimli::DebugLocLists::from(empty))
+            .raw_locations(gimli::LocationListsOffset(0), enc)
+    } else if ver >= 5 {
+        gimli::LocationLists::new(gimli::DebugLoc::from(empty), gimli::DebugLocLists::from(r))
+            .raw_locations(gimli::LocationListsOffset(0), enc)
+    } else {
+        gimli::LocationLists::new(gimli::DebugLoc::from(r), gimli::DebugLocLists::from(empty))
+            .raw_locations_dwo(gimli::LocationListsOffset(0), enc)
+    };
+    let mut it = match it {
+        Ok(it) => it,
+        Err(e) => return err(&e),
+    };
+    let mut out: Vec<String> = Vec::new();
+    loop {
+        use gimli::RawLocListEntry as E;
+        let v: Vec<u64> = match it.next() {
+            Ok(None) => break,
+            Err(e) => return err(&e),
+            Ok(Some(E::BaseAddressx { addr })) => vec![1, addr.0 as u64],
+            Ok(Some(E::StartxEndx { begin, end, data })) => vec![2, begin.0 as u64, end.0 as u64, data.0.len() as u64],
+            Ok(Some(E::StartxLength { begin, length, data })) => vec![3, begin.0 as u64, length, data.0.len() as u64],
+            Ok(Some(E::OffsetPair { begin, end, data })) => vec![4, begin, end, data.0.len() as u64],
+            Ok(Some(E::DefaultLocation { data })) => vec![5, data.0.len() as u64],
+            Ok(Some(E::BaseAddress { addr })) => {
+                if kind == "locbare" {
+                    vec![1, addr]
+                } else {
+                    vec![6, addr]
+                }
+            }
+            Ok(Some(E::StartEnd { begin, end, data })) => vec![7, begin, end, data.0.len() as u64],
+            Ok(Some(E::StartLength { begin, length, data })) => vec![8, begin, length, data.0.len() as u64],
+            Ok(Some(E::AddressOrOffsetPair { begin, end, data })) => vec![2, begin, end, data.0.len() as u64],
+        };
+        out.extend(v.iter().map(|x| x.to_string()));
+    }
+    format!("ok {}", join(&out))
+}
+
+fn p_aranges<R: Reader<Offset = usize>>(r: R) -> String {
+    let da = gimli::DebugAranges::from(r);
+    let h = match da.headers().next() {
+        Ok(Some(h)) => h,
+        Ok(None) => return "none".into(),
+        Err(e) => return err(&e),
+    };
+    let mut out: Vec<String> = vec![
+        h.length().to_string(),
+        h.encoding().format.word_size().to_string(),
+        h.encoding().version.to_string(),
+        h.debug_info_offset().0.to_string(),
+        h.encoding().address_size.to_string(),
+    ];
+    let mut it = h.entries();
+    loop {
+        match it.next_raw() {
+            Ok(None) => break,
+            Err(e) => return err(&e),
+            Ok(Some(a)) => {
+                out.push(a.address().to_string());
+                out.push(a.length().to_string());
+            }
+        }
+    }
+    format!("ok {}", join(&out))
+}
+
+fn p_pubnames<R: Reader<Offset = usize>>(r: R) -> String {
+    let dp = gimli::DebugPubNames::from(r);
+    let mut it = dp.items();
+    let mut out: Vec<String> = Vec::new();
+    loop {
+        match it.next() {
+            Ok(None) => break,
+            Err(e) => return err(&e),
+            Ok(Some(e)) => {
+                out.push(e.unit_header_offset().0.to_string());
+                out.push(e.die_offset().0.to_string());
+                out.push(e.name().len().to_string());
+            }
+        }
+    }
+    format!("ok {}", join(&out))
+}
+
+fn parsers(t: &[&str]) -> String {
+    let kind = t[3];
+    let big = t[1] == "1";
+    let np = match kind {
+        "line" | "rle" | "locbare" => 1,
+        "attr" => 7,
+        "lle" => 2,
+        _ => 0,
+    };
+    let bytes = hex(t[4 + np]);
+    let mut ri = 5 + np;
+    let rels = parse_rels(t, &mut ri);
+    let pu = |k: usize| -> u64 { u(t[4 + k]) };
+    match kind {
+        "line" => both_ways(t, &bytes, &rels, &|r| match r {
+            Ok(r) => p_line(r, pu(0) as u8, big),
+            Err(r) => p_line(r, pu(0) as u8, big),
+        }),
+        "rle" => both_ways(t, &bytes, &rels, &|r| match r {
+            Ok(r) => p_rle(r, pu(0) as u8),
+            Err(r) => p_rle(r, pu(0) as u8),
+        }),
+        "locbare" => both_ways(t, &bytes, &rels, &|r| match r {
+            Ok(r) => p_loc(r, kind, 4, pu(0) as u8),
+            Err(r) => p_loc(r, kind, 4, pu(0) as u8),
+        }),
+        "lle" => both_ways(t, &bytes, &rels, &|r| match r {
+            Ok(r) => p_loc(r, kind, pu(0) as u16, pu(1) as u8),
+            Err(r) => p_loc(r, kind, pu(0) as u16, pu(1) as u8),
+        }),
+        "aranges" => both_ways(t, &bytes, &rels, &|r| match r {
+            Ok(r) => p_aranges(r),
+            Err(r) => p_aranges(r),
+        }),
+        "pubnames" => both_ways(t, &bytes, &rels, &|r| match r {
+            Ok(r) => p_pubnames(r),
+            Err(r) => p_pubnames(r),
+        }),
+        "attr" => {
+            let name = pu(3);
+            let form = pu(4);
+            let implicit = i(t[4 + 5]);
+            let foff = pu(6) as usize;
+            // abbrev 1: DW_TAG_compile_unit, no children, one attribute (name, form [, implicit const])
+            let mut abbrev: Vec<u8> = vec![1, 0x11, 0];
+            let uleb = |mut v: u64, out: &mut Vec<u8>| loop {
+                let b = (v & 0x7f) as u8;
+                v >>= 7;
+                if v == 0 {
+                    out.push(b);
+                    break;
+                }
+                out.push(b | 0x80);
+            };
+            uleb(name, &mut abbrev);
+            uleb(form, &mut abbrev);
+            if form == 0x21 {
+                let mut v = implicit as i64;
+                loop {
+                    let b = (v & 0x7f) as u8;
+                    v >>= 7;
+                    if (v == 0 && b & 0x40 == 0) || (v == -1 && b & 0x40 != 0) {
+                        abbrev.push(b);
+                        break;
+                    }
+                    abbrev.push(b | 0x80);
+                }
+            }
+            abbrev.extend_from_slice(&[0, 0, 0]);
+            let e = endian(t[1]);
+            let rel = MapRel::new(&rels);
+            let norel = MapRel::new(&[]);
+            let rr = p_attr(
+                RelocateReader::new(EndianSlice::new(&bytes, e), rel.clone()),
+                RelocateReader::new(EndianSlice::new(&abbrev, e), norel),
+            );
+            let applied = apply_read_relocs(&bytes, &rels, big);
+            let pr = p_attr(EndianSlice::new(&applied, e), EndianSlice::new(&abbrev, e));
+            // the model starts at the attribute's field: the header's debug_abbrev_offset (also relocatable) is
+            // c18.hdr's business, and a relocation before the field may change what the header parses to
+            let header_touched = rels.iter().any(|r| r.0 < foff);
+            if t[2] == "1" && rr != pr && !header_touched {
+                return format!("relocread-mismatch reloc=[{}] applied=[{}]", rr, pr);
+            }
+            rel.log.borrow_mut().retain(|x| x.0 >= foff);
+            format!("r {} p {} s {}", rr, pr, rel.sites())
+        }
+        _ => "unknown-kind".into(),
+    }
+}
+
 pub fn run(t: &[&str]) -> String {
     match t[0] {
+        "c18.parsers" => parsers(t),
         "c18.wops" => wops(t),
         "c18.rprog" => rprog(t),
         "c18.hdr" => hdr(t),
